@@ -1,7 +1,7 @@
 (* C03 (a) - property theorems only: every move of an endpoint is an edge of the
    RFC 9293 Figure 5 diagram (closed under the composite moves of one arrival).
    rfc_edge, rfc_path, one_arrival are defined in Proofs/TcbEdges.v. *)
-From Elvis Require Import Model.Base Model.U32 Model.Tcb Proofs.TcbEdges.
+From Elvis Require Import Model.Base Model.U32 Model.Tcb Proofs.TcbEdges Proofs.TcbInv Proofs.TcbC17.
 Local Open Scope Z_scope.
 
 Theorem C03_edges : forall t s t' r,
@@ -72,3 +72,16 @@ Theorem C03_deleted_only_when_arrives : forall t s t',
       is_fin_acked t' = true)).
 Proof. exact segment_arrives_close_one. Qed.
 Print Assumptions C03_deleted_only_when_arrives.
+
+(* the same with segments waiting in the reassembly heap: the closing result
+   comes from one process_segment call, on the new segment or on a queued one,
+   reached along diagram edges *)
+Theorem C03_deleted_only_when_arrives_any : forall t s t',
+  segment_arrives t s = Ok (t', AClose) ->
+  exists t0 s0 r, (s0 = s \/ In s0 (in_segs t)) /\ rfc_path (st t) (st t0) /\
+    process_segment t0 s0 = Ok (t', r) /\ should_delete r = true /\
+    ((c_rst (h_ctl (s_hdr s0)) = true /\ ps_rst t' (s_hdr s0) = Some r) \/
+     (r = PFinalizeClose /\ c_ack (h_ctl (s_hdr s0)) = true /\ st t0 = LastAck /\ st t' = LastAck /\
+      is_fin_acked t' = true)).
+Proof. exact segment_arrives_close. Qed.
+Print Assumptions C03_deleted_only_when_arrives_any.
